@@ -110,6 +110,8 @@ def rleGo : Nat → Bytes → Nat → Bytes → Bytes
 def rleDecompress (compressed : Bytes) (size : Nat) (skipHeader : Bool) : Option Bytes :=
   if skipHeader ∧ compressed.length < 4 then none else
   let data := if skipHeader then compressed.drop 4 else compressed
+  -- rle.rs: a declared size beyond 128 bytes per input byte is refused before anything is allocated
+  if size > data.length * 128 then none else
   some ((rleGo (data.length + 1) data size [] ++ List.replicate size 0).take size)
 
 structure Bs where
@@ -160,6 +162,8 @@ def applyBsd0 (p : Patch) (base : Bytes) : Option Bytes :=
     let ctrl := (d.drop 32).take ctrlSize
     let dataBlk := (d.drop (32 + ctrlSize)).take dataSize
     let extraBlk := d.drop (32 + ctrlSize + dataSize)
+    -- apply.rs: every output byte comes from the diff block or the extra block
+    if newSize > dataBlk.length + extraBlk.length then none else
     match bsdLoop base ctrl dataBlk extraBlk newSize (ctrlSize / 12) 0 {} with
     | none => none
     | some st => if st.newOff ≠ newSize then none else some st.out
